@@ -143,4 +143,63 @@ def run (c : Cfg) (ops : List Op) (s : St := init) : St :=
 
 def tracked (s : St) (k : Key) : Prop := s.decoys.contains k = true
 
+/-! ## the outer level of the Go map: which per-phantom buckets exist
+
+`decoys` is `map[string]map[string]*DecoyRegistration` in the code; the flattened `St.decoys` cannot
+say whether an (empty) inner map is still stored under a phantom address.  `BSt` carries the set of
+stored buckets explicitly and `bstep` mirrors the two places where the code creates / deletes one:
+`track` for a registration it stores (`if !exists { r.decoys[ph] = map… }`) and `removeRegistration`
+after a deletion (`if len(r.decoys[ph]) == 0 { delete(r.decoys, ph) }`).  The registry part of `bstep`
+is `step` (theorem `bstep_st`), so everything proved about `step` carries over. -/
+
+structure BSt where
+  st : St := {}
+  buckets : List String := []
+
+def binit : BSt := {}
+
+def addBucket (p : String) (l : List String) : List String := if l.contains p then l else p :: l
+
+/-- `track` / `register` store a new registration (and make sure its bucket exists) exactly when the
+transport is enabled and the key is not tracked -/
+def creates (c : Cfg) (s : St) (k : Key) (tr : Nat) : Bool :=
+  c.enabled.contains tr && !s.decoys.contains k
+
+/-- `removeRegistration` with the bucket clean-up: only after an actual deletion is the length of the
+inner map looked at -/
+def bremove (c : Cfg) (now : Nat) (b : BSt) (k : Key) : BSt × Option Bool :=
+  match remove c now b.st k with
+  | (s', none) => ({ b with st := s' }, none)
+  | (s', some v) => ({ st := s', buckets := if count s' k.1 = 0 then b.buckets.erase k.1 else b.buckets }, some v)
+
+def bremoveAll (c : Cfg) (now : Nat) (ks : List Key) (b : BSt) : BSt × Nat :=
+  ks.foldl (fun (acc : BSt × Nat) k =>
+    let (b', r) := bremove c now acc.1 k
+    (b', if r = some true then acc.2 + 1 else acc.2)) (b, 0)
+
+def bstep (c : Cfg) (b : BSt) : Op → BSt × Out
+  | .track k tr now =>
+    let (s', ok) := track c b.st k tr now
+    ({ st := s', buckets := if creates c b.st k tr then addBucket k.1 b.buckets else b.buckets },
+      if ok then .ok else .err)
+  | .register k tr now =>
+    let (s', o) := register c b.st k tr now
+    ({ st := s', buckets := if creates c b.st k tr then addBucket k.1 b.buckets else b.buckets }, o)
+  | .remove k now =>
+    let (b', r) := bremove c now b k
+    (b', match r with | some v => .bool v | none => .none)
+  | .sweep now =>
+    let ks := collect c now b.st
+    let (b', v) := bremoveAll c now ks b
+    (b', .swept ks.length v)
+  | .markActive k tr => let (s', o) := markActive c b.st k tr; ({ b with st := s' }, o)
+  | .collect now => (b, .keys (collect c now b.st))
+  | .lookup p => (b, .regs (lookup b.st p))
+  | .exists_ k tr => (b, .bool (c.enabled.contains tr && b.st.decoys.contains k))
+  | .count p => (b, .num (count b.st p))
+  | .total => (b, .num b.st.decoys.size)
+
+def brun (c : Cfg) (ops : List Op) (b : BSt := binit) : BSt :=
+  ops.foldl (fun b o => (bstep c b o).1) b
+
 end CJ.Registry
